@@ -119,39 +119,74 @@ P2Small(k) == FoldLeft(LAMBDA acc, i : acc * 2, 1, Iota(k))     \* k <= 20
 BPow2(n) == BMulSmall(FoldLeft(LAMBDA acc, i : BMulSmall(acc, 1048576), <<1>>, Iota(n \div 20)), P2Small(n % 20))
 BEven(a) == a = <<>> \/ a[1] % 2 = 0
 
-(*************** exact correctly-rounded binary64 (C07 / C08) ****************)
+(*************** exact round-to-nearest-even (C07 / C08) ****************)
+\* Is F * 2^p the round-to-nearest-even image of the exact value V * 10^v10 * 2^v2 ?
+\* lowHalf: the gap below F*2^p is half the gap above (F is the smallest normal significand, not the
+\* smallest exponent).  All quantities are naturals except the exponents v10, v2, p (integers).
+NearestOk(V, v10, v2, F, p, lowHalf) ==
+  LET d2  == v2 - (p - 1)
+      A   == BMul(BMul(V, BPow10(IF v10 > 0 THEN v10 ELSE 0)), BPow2(IF d2 > 0 THEN d2 ELSE 0))
+      scB == BMul(BPow10(IF v10 < 0 THEN 0 - v10 ELSE 0), BPow2(IF d2 < 0 THEN 0 - d2 ELSE 0))
+      twoF == BMulSmall(F, 2)
+      even == BEven(F)
+      cu  == BCmp(A, BMul(BAdd(twoF, <<1>>), scB))
+  IN /\ (cu < 0 \/ (cu = 0 /\ even))
+     /\ IF F = <<>> THEN TRUE
+        ELSE IF lowHalf
+             THEN LET cl == BCmp(BMulSmall(A, 2), BMul(BSub1(BMulSmall(F, 4)), scB)) IN cl > 0 \/ (cl = 0 /\ even)
+             ELSE LET cl == BCmp(A, BMul(BSub1(twoF), scB)) IN cl > 0 \/ (cl = 0 /\ even)
+
 \* Is the double with sign `neg`, biased exponent `e` and 52-bit fraction field given by its
 \* decimal digits `mds` THE IEEE-754 round-to-nearest-even image of the literal?  (Unique.)
+F64Sig(e, mds) == LET frac == BFromDigits(StripZ(mds)) IN IF e = 0 THEN frac ELSE BAdd(frac, BPow2(52))
+F64Exp(e) == IF e = 0 THEN 0 - 1074 ELSE e - 1075
 CorrectlyRounded(lit, neg, e, mds) ==
   LET sc == Scan(lit)
       M  == BFromDigits(StripZ(Mant(sc)))
       q  == ExpField(sc) - Len(sc.fd)
       frac == BFromDigits(StripZ(mds))
-      F  == IF e = 0 THEN frac ELSE BAdd(frac, BPow2(52))
-      p  == IF e = 0 THEN 0 - 1074 ELSE e - 1075
+      F  == F64Sig(e, mds)
   IN /\ neg = sc.neg
      /\ e <= 2046
      /\ BCmp(frac, BPow2(52)) < 0
      /\ IF IsZeroLit(sc) THEN e = 0 /\ F = <<>>
         ELSE IF Sci(sc) > 310 THEN FALSE                 \* infinite: must have been rejected
         ELSE IF Sci(sc) < 0 - 340 THEN e = 0 /\ F = <<>> \* underflows to zero
-        ELSE LET s10a == IF q > 0 THEN q ELSE 0
-                 s10b == IF q < 0 THEN 0 - q ELSE 0
-                 s2a  == IF 1 - p > 0 THEN 1 - p ELSE 0
-                 s2b  == IF p - 1 > 0 THEN p - 1 ELSE 0
-                 A    == BMul(BMul(M, BPow10(s10a)), BPow2(s2a))
-                 scB  == BMul(BPow2(s2b), BPow10(s10b))
-                 twoF == BMulSmall(F, 2)
-                 Up   == BMul(BAdd(twoF, <<1>>), scB)
-                 boundary == e > 1 /\ frac = <<>>          \* F = 2^52: the gap below is half the gap above
-                 even == BEven(F)
-                 cu   == BCmp(A, Up)
-             IN /\ (cu < 0 \/ (cu = 0 /\ even))
-                /\ IF F = <<>> THEN TRUE
-                   ELSE IF boundary
-                        THEN LET cl == BCmp(BMulSmall(A, 2), BMul(BSub1(BMulSmall(F, 4)), scB)) IN cl > 0 \/ (cl = 0 /\ even)
-                        ELSE LET cl == BCmp(A, BMul(BSub1(twoF), scB)) IN cl > 0 \/ (cl = 0 /\ even)
+        ELSE NearestOk(M, q, 0, F, F64Exp(e), e > 1 /\ frac = <<>>)
 FloatMatches(lit, d) == CorrectlyRounded(lit, d.neg, d.e, d.m)
+
+\* binary32 obtained from a binary64 by ONE narrowing (round-to-nearest-even, overflow to infinity)
+F32Sig(e8, mds) == LET frac == BFromDigits(StripZ(mds)) IN IF e8 = 0 THEN frac ELSE BAdd(frac, BPow2(23))
+F32Exp(e8) == IF e8 = 0 THEN 0 - 149 ELSE e8 - 150
+NarrowOk(neg, e, mds, neg32, e8, m23) ==
+  LET F == F64Sig(e, mds)  p == F64Exp(e)
+      frac32 == BFromDigits(StripZ(m23))
+  IN /\ neg32 = neg
+     /\ BCmp(frac32, BPow2(23)) < 0
+     /\ IF e8 = 255 THEN \* infinity: the value is at least (2^25 - 1) * 2^103
+             /\ frac32 = <<>>
+             /\ LET d == p - 103 IN
+                IF d >= 0 THEN BCmp(BMul(F, BPow2(d)), BSub1(BPow2(25))) >= 0
+                ELSE BCmp(F, BMul(BSub1(BPow2(25)), BPow2(0 - d))) >= 0
+        ELSE IF F = <<>> THEN e8 = 0 /\ frac32 = <<>>
+        ELSE NearestOk(F, 0, p, F32Sig(e8, m23), F32Exp(e8), e8 > 1 /\ frac32 = <<>>)
+
+\* ---- integer targets: an integer literal is accepted exactly when it lies in the target's range ----
+IntMaxDigits(bits, signed, neg) ==
+  CASE bits = 8   -> IF ~signed THEN <<2,5,5>> ELSE IF neg THEN <<1,2,8>> ELSE <<1,2,7>>
+    [] bits = 16  -> IF ~signed THEN <<6,5,5,3,5>> ELSE IF neg THEN <<3,2,7,6,8>> ELSE <<3,2,7,6,7>>
+    [] bits = 32  -> IF ~signed THEN <<4,2,9,4,9,6,7,2,9,5>> ELSE IF neg THEN <<2,1,4,7,4,8,3,6,4,8>> ELSE <<2,1,4,7,4,8,3,6,4,7>>
+    [] bits = 64  -> IF ~signed THEN U64Max ELSE IF neg THEN I64MinAbs ELSE <<9,2,2,3,3,7,2,0,3,6,8,5,4,7,7,5,8,0,7>>
+    [] bits = 128 -> IF ~signed THEN <<3,4,0,2,8,2,3,6,6,9,2,0,9,3,8,4,6,3,4,6,3,3,7,4,6,0,7,4,3,1,7,6,8,2,1,1,4,5,5>>
+                     ELSE IF neg THEN <<1,7,0,1,4,1,1,8,3,4,6,0,4,6,9,2,3,1,7,3,1,6,8,7,3,0,3,7,1,5,8,8,4,1,0,5,7,2,8>>
+                     ELSE <<1,7,0,1,4,1,1,8,3,4,6,0,4,6,9,2,3,1,7,3,1,6,8,7,3,0,3,7,1,5,8,8,4,1,0,5,7,2,7>>
+\* "yes" | "no" | "open" (the literal -0 / -00..: an integer by value, a float by classification)
+IntAccepts(bits, signed, lit) ==
+  LET sc == Scan(lit)  mag == StripZ(sc.id) IN
+  IF ~IsPlainInt(sc) THEN "no"
+  ELSE IF sc.neg /\ mag = <<>> THEN "open"
+  ELSE IF sc.neg /\ ~signed THEN "no"
+  ELSE IF CmpInt(mag, IntMaxDigits(bits, signed, sc.neg)) <= 0 THEN "yes" ELSE "no"
 
 \* ---- number grammar over bytes (independent of JsonText's class machine) ----
 NumGrammarStep(m, b) ==
